@@ -32,7 +32,7 @@ OK = [
      {"name": "C::step", "params": ["const P&"], "ret": "void", "lean": "step", "fields": {"q": "P"}, "state": {"hit": "bool", "n": "int"}},
      ["(hit0 : Bool) (n0 : Int)", "let mut hit : Bool := hit0", "return (hit, n)", "n := n + 1", "Bool × Int"]),
     ("double k(double a) { double r; if (a < 0) r = -a; else r = a; return r; }",
-     {"name": "k", "params": ["double"], "ret": "double", "lean": "k"}, ["let mut r : R := default", "Cxx.Ring.neg a"]),
+     {"name": "k", "params": ["double"], "ret": "double", "lean": "k"}, ["let mut r : R := (Cxx.Ring.ofInt 0 : R)", "Cxx.Ring.neg a"]),
     ("bool m(E e, int i) { return e == E::A ? i > 0 : static_cast<double>(i) < 1.5; }",
      {"name": "m", "params": ["E", "int"], "ret": "bool", "lean": "m"}, ["(e == E.a)", "Cxx.Ring.ofInt i"]),
 ]
